@@ -776,7 +776,7 @@ func runC04(cfg *vh.Config) error {
 	res := vh.NewResult("C04", cfg.Seed)
 	res.Rule = "objects of 2-7 properties over every field type (integer x4, string, bytes, bool, enum, key x5 formats with entity keys, float x2, date, decimal, timestamp, any, object (flatten), oneof), each plain / required / optional / array (rules, singleForm) / map, every validation rule absent / zero / boundary, both values of every boolean, list rules (filtering, default filters, sorting, default sort, searching), descriptions; non-trivial = distinct property declaration carrying at least one rule, flag, format or annotation"
 	cf := &vh.CasesFile{
-		Header: "From Coq Require Import String List NArith ZArith.\nFrom J5V.lib Require Import Outcome.\nFrom J5V.model Require Import RulesDecl RulesRead RulesEnum RulesReadCorr.",
+		Header: "From Coq Require Import String List NArith ZArith.\nFrom J5V.lib Require Import Outcome.\nFrom J5V.model Require Import ProtoPrintLit ProtoPrint ProtoPrintFile.\nFrom J5V.model Require Import RulesDecl RulesRead RulesEnum RulesReadCorr.",
 		Type:   "c04case",
 		Check:  "c04_check",
 	}
@@ -885,6 +885,19 @@ func runC04(cfg *vh.Config) error {
 		cf.Terms = append(cf.Terms, fmt.Sprintf("C04Case %s [%s] [%s] %s [%s]", env.Coq(), strings.Join(dterms, ";"), strings.Join(outs, ";"), refl, strings.Join(same, ";")))
 		res.Cases = append(res.Cases, vh.CaseRec{Case: caseNo, Stream: "object", Input: input, Impl: map[string]any{"reflected": protoString(mem.obj), "error": fmt.Sprint(mem.err), "panic": fmt.Sprint(mem.panic)}})
 		res.Sample(map[string]any{"j5s": src, "reflected": protoString(mem.obj)}, 3)
+
+		// ---- the decoder of the text clause: each compiled field as a descriptor of the file
+		// model (option trees as the printer walks them) vs the annotation record dumped above
+		for i := range props {
+			dt, err := dfieldTerm(md.Fields().Get(i))
+			if err != nil {
+				res.Count("view-skipped")
+				continue
+			}
+			cf.Terms = append(cf.Terms, fmt.Sprintf("C04View %s %s", dt, outs[i]))
+			res.Cases = append(res.Cases, vh.CaseRec{Case: caseNo, Stream: "view", Input: map[string]any{"j5s": props[i].P.J5S(env)}, Impl: map[string]any{"annotations": outs[i]}})
+			res.Count("view")
+		}
 
 		// ---- the enum as a root schema: declared vs compiled vs reflected
 		ed := c.file.Enums().ByName(protoreflect.Name(env.Name))
